@@ -27,6 +27,8 @@ git -C /repo apply $SRC/patch.diff
 out=$(./check $ID 2>&1 | tail -4)
 git -C /repo checkout -- .
 echo "$out"
+./check $ID > /dev/null 2>&1   # evidence must describe a run on the clean tree
+rm -f replays/$ID-*.json
 mkdir -p seeded/$NAME; cp $SRC/patch.diff $SRC/demo.rs seeded/$NAME/
 python3 - "$SRC/meta.json" "seeded/$NAME/meta.json" "$base" "$suite" "$with" "$out" <<'PY'
 import json,sys
